@@ -21,7 +21,7 @@ from harness import lib
 MODEL_PROPS = ["C01"]
 LEVEL = "proof"
 
-TMP = os.path.join(lib.BUILD, "tmp", "c01")
+TMP = os.environ.get("C01_TMP") or os.path.join(lib.BUILD, "tmp", "c01_%d" % os.getpid())
 # DESIGN section 7 D5 (repaired in /repo by e1cd0b8): the configuration class is generated on purpose
 D5_INPUT = ("processor=threaded_mailbox, a multi-output plugin is recomputed while one of its other outputs is "
             "stored and loader-fed")
@@ -250,6 +250,25 @@ def gen_graph(rng, thorough=False):
             node["slot"] = slot
             info[name] = {"kind": info[first]["kind"], "disjoint": info[first]["disjoint"], "value": True,
                           "fields": ["v" + slot]}
+    # directed template (DESIGN section 7 D5): a multi-output plugin whose two outputs are both needed by a
+    # loop plugin, so that "one output stored, the sibling recomputed" can arise; see gen_config
+    template = None
+    disj = [d for d in info if info[d]["value"] and info[d]["disjoint"] and node_kind(nodes, d) != "mergeonly"]
+    if disj and rng.random() < 0.3:
+        d = rng.choice(disj)
+        mname, lname = "n%d" % i, "n%d" % (i + 1)
+        m = {"name": mname, "kind": "multi", "deps": [d], "coefs": [rng.randint(1, 9)], "b": rng.randint(0, 9),
+             "mod": rng.choice([2, 3]), "rem": 0, "parallel": rng.choice([False, True]),
+             "save_when_multi": ["ALWAYS", "ALWAYS"], "rechunk_multi": [rng.random() < 0.5, rng.random() < 0.5],
+             "target_mb": rng.choice([1e-4, 200]), "slots": [rng.choice("ab"), rng.choice("ab")]}
+        deps = [mname + "_p", mname + "_q"]
+        if rng.random() < 0.5:
+            deps.reverse()
+        lp = {"name": lname, "kind": "loop", "deps": deps, "a": rng.randint(1, 5), "b": rng.randint(0, 5),
+              "parallel": rng.choice([False, True]), "save_when": "ALWAYS", "rechunk_on_save": rng.random() < 0.5,
+              "target_mb": rng.choice([1e-4, 200]), "slot": rng.choice("ab")}
+        nodes += [m, lp]
+        template = {"multi": [mname + "_p", mname + "_q"], "after": [lname]}
     for s in range(n_src):
         nodes[s]["parallel"] = rng.choice([False, True, "process"])
         nodes[s]["rechunk_on_save"] = rng.random() < 0.5
@@ -262,6 +281,8 @@ def gen_graph(rng, thorough=False):
         chunkings[nodes[s]["name"]] = {str(c): gen_chunking(rng, rows, T, rng.choice([0.0, 0.15, 0.5, 1.0]))
                                        for c in range(4)}
     graph["chunkings"] = chunkings
+    if template:
+        graph["d5_template"] = template
     last = nodes[-1]
     outs = [last["name"] + "_p", last["name"] + "_q"] if last["kind"] == "multi" else [last["name"]]
     graph["target"] = rng.choice(outs)
@@ -342,6 +363,12 @@ def gen_config(rng, graph, thorough=False):
         if cfg["max_messages"] <= zd:
             cfg["max_messages"] = zd + 1 + rng.randint(0, 2)
             cfg["max_messages_raised_above_lag"] = True
+    t = graph.get("d5_template")
+    if t and rng.random() < 0.6:
+        # one output of the multi-output plugin stays stored, its sibling and everything built on them is removed
+        k = rng.randrange(2)
+        cfg["force_keep"] = [t["multi"][k]]
+        cfg["force_drop"] = [t["multi"][1 - k]] + t["after"]
     return cfg
 
 
@@ -596,7 +623,10 @@ def run_case(args):
             if keep is None:
                 u = rng.random()
                 pk = 0.0 if u < 0.1 else 1.0 if u < 0.15 else rng.choice([0.3, 0.5, 0.7])
-                keep = sorted(d for d in have if rng.random() < pk and not (d == graph["target"] and rng.random() < 0.8))
+                keep = set(d for d in have if rng.random() < pk and not (d == graph["target"] and rng.random() < 0.8))
+                keep |= set(d for d in cfg.get("force_keep", []) if d in have)
+                keep -= set(cfg.get("force_drop", []))
+                keep = sorted(keep)
                 cfg["keep"] = keep
             for d, dirname in have.items():
                 if d not in keep:
@@ -964,10 +994,11 @@ TIMEOUT_WORDS = ("Timeout", "did not terminate", "timed out", "in time")
 
 
 def run(ctx):
+    os.environ["C01_TMP"] = TMP   # inherited by the spawned workers
     os.makedirs(TMP, exist_ok=True)
     t_start = time.time()
     big = ctx.thorough or ctx.escalated()
-    n_graphs = 2400 if ctx.thorough else (260 if ctx.escalated() else 130)
+    n_graphs = 2400 if ctx.thorough else (220 if ctx.escalated() else 110)
     n_graphs = int(os.environ.get("C01_NGRAPHS", n_graphs))  # development aid
     n_cfg = 4 if big else 3
     rng = ctx.rng
@@ -982,7 +1013,7 @@ def run(ctx):
         tasks.append((g, cfgs, rng.randrange(1 << 30), tag, 60))
     tasks = zero_end_tasks() + tasks
     stats = {"runs": 0, "ok": 0, "dist": {}, "nontrivial": set()}
-    nproc = min(14, os.cpu_count() or 4)
+    nproc = int(os.environ.get("C01_NPROC", min(14, os.cpu_count() or 4)))
     t_gen = time.time() - t_start
     reports = run_pool(tasks, nproc)
     t_pool = time.time() - t_start - t_gen
@@ -1040,8 +1071,10 @@ def replay(ctx, obj):
     else:
         cfgs = [cfg]
     os.makedirs(TMP, exist_ok=True)
+    os.environ.setdefault("NUMBA_CACHE_DIR", os.path.join(lib.BUILD, "numba_cache", "c01_replay"))
     out = sys.stdout
-    rep = run_case((graph, cfgs, 0, "replay_%d" % os.getpid(), 40))
+    rep = run_case((graph, cfgs, 0, "replay_%d" % os.getpid(), 120))
+    shutil.rmtree(TMP, ignore_errors=True)
     sys.stdout = out
     sys.stderr = sys.__stderr__
     if rep["error"]:
